@@ -166,8 +166,10 @@ def apply_png_predictor(
         msg = "Unsupported `bitspercomponent': %d" % bitspercomponent
         raise PDFValueError(msg)
 
-    nbytes = colors * columns * bitspercomponent // 8
-    bpp = colors * bitspercomponent // 8  # number of bytes per complete pixel
+    # rows are padded to a whole number of bytes
+    nbytes = (colors * columns * bitspercomponent + 7) // 8
+    # number of bytes per complete pixel, rounding up to one
+    bpp = max(1, colors * bitspercomponent // 8)
     buf = []
     line_above = list(b"\x00" * nbytes)
     for scanline_i in range(0, len(data), nbytes + 1):
